@@ -78,6 +78,13 @@ func (p *VipnodePool) CloseRemote(remote jsonrpc2.Service) error {
 		// Only if the host has not re-registered on a newer connection since.
 		delete(p.remoteHosts, nodeID)
 	}
+	// The reverse lookup only remembers the last host that registered on a
+	// connection: also drop any other host still registered on it.
+	for hostID, hostRemote := range p.remoteHosts {
+		if hostRemote == remote {
+			delete(p.remoteHosts, hostID)
+		}
+	}
 
 	return nil
 }
